@@ -5,36 +5,36 @@ GEN_RULE = ("cases are drawn from the structured journal generator G (accounts, 
             "map-order mode and seed, lock-yield policy, worker count); a case is distinct by the hash of its journal, files, "
             "flags and fault plan, and non-trivial when the oracle was actually exercised (not vacuous, e.g. the command succeeded where success is a precondition)")
 
-DEFAULT_Q = {"cases": 3000, "secs": 40, "shrink_secs": 10}
+DEFAULT_Q = {"cases": 12000, "secs": 40, "shrink_secs": 10}
 DEFAULT_T = {"cases": 0, "secs": 900, "shrink_secs": 30}
 PROPS = {
     "C01": {"level": "exploration", "engines": "S", "quick": DEFAULT_Q, "thorough": DEFAULT_T, "rule": GEN_RULE, "assumptions": []},
     "C04": {"level": "exploration", "engines": "S", "quick": DEFAULT_Q, "thorough": DEFAULT_T, "rule": GEN_RULE, "assumptions": ["assertions on accounts other than assets/liabilities are not generated (the property is silent)"]},
-    "C05": {"level": "exploration", "engines": "S", "quick": {"cases": 300, "secs": 45, "shrink_secs": 10}, "thorough": DEFAULT_T, "rule": GEN_RULE, "assumptions": ["map iteration order is held equal (per-content mode, same seed) between the layouts compared; run-to-run determinism is C06"]},
-    "C09": {"level": "exploration", "engines": "S", "quick": {"cases": 600, "secs": 45, "shrink_secs": 10}, "thorough": DEFAULT_T, "rule": GEN_RULE, "assumptions": []},
-    "C19": {"level": "exploration", "engines": "SR", "quick": {"cases": 1200, "secs": 45, "shrink_secs": 10}, "thorough": DEFAULT_T, "rule": GEN_RULE, "assumptions": []},
-    "C14": {"level": "fault_enumeration", "engines": "S", "quick": {"cases": 560, "secs": 50, "shrink_secs": 8}, "thorough": DEFAULT_T,
+    "C05": {"level": "exploration", "engines": "S", "quick": {"cases": 900, "secs": 45, "shrink_secs": 10}, "thorough": DEFAULT_T, "rule": GEN_RULE, "assumptions": ["map iteration order is held equal (per-content mode, same seed) between the layouts compared; run-to-run determinism is C06"]},
+    "C09": {"level": "exploration", "engines": "S", "quick": {"cases": 2400, "secs": 45, "shrink_secs": 10}, "thorough": DEFAULT_T, "rule": GEN_RULE, "assumptions": []},
+    "C19": {"level": "exploration", "engines": "SR", "quick": {"cases": 2400, "secs": 45, "shrink_secs": 10}, "thorough": DEFAULT_T, "rule": GEN_RULE, "assumptions": []},
+    "C14": {"level": "fault_enumeration", "engines": "S", "quick": {"cases": 2240, "secs": 50, "shrink_secs": 8}, "thorough": DEFAULT_T,
             "rule": GEN_RULE + "; per workload the fault-free run is traced and every read operation (ReadFile/Open/Read) is failed in turn with ENOENT, EACCES, EISDIR, EIO, a truncated and a bit-flipped result; include graphs (self, 2- and 3-cycles, diamond, missing, directory), flag faults, byte soup and edge inputs are separate sub-checks", "assumptions": ["one fault per run", "step budget 20000 / task budget 2000 stand for 'does not terminate'"]},
-    "C18": {"level": "fault_enumeration", "engines": "S", "quick": {"cases": 112, "secs": 50, "shrink_secs": 8}, "thorough": DEFAULT_T,
+    "C18": {"level": "fault_enumeration", "engines": "S", "quick": {"cases": 450, "secs": 50, "shrink_secs": 8}, "thorough": DEFAULT_T,
             "rule": "workloads: knut format on one file, on 2-4 files (parseable, unparseable, mixed; worker count varied), in an unwritable directory, and knut infer --inplace (training file separate or identical to the target); per workload the fault-free run is traced, then every file-system operation is failed with every applicable errno, every byte offset of every payload write (all offsets up to 700 bytes, 68 drawn offsets above) is cut short with ENOSPC, and a crash is placed before every operation and after the last, with every legal durable image enumerated (directory operations persist in order, any suffix may be lost; data is durable only after fsync, any prefix of unsynced bytes may persist); a case is non-trivial when the fault-free run changes at least one file",
             "assumptions": ["crash model: ordered metadata, data durable after fsync (ext4 data=ordered-like); one fault per run", "exit status after a fault belongs to C14 and is not judged here", "fetch.writeFile is not exercised (no network)"]},
-    "C12": {"level": "exploration", "engines": "S", "quick": {"cases": 3000, "secs": 45, "shrink_secs": 8}, "thorough": DEFAULT_T,
+    "C12": {"level": "exploration", "engines": "S", "quick": {"cases": 12000, "secs": 45, "shrink_secs": 8}, "thorough": DEFAULT_T,
             "rule": "price graphs over 2-6 commodities: trees, graphs with alternative paths and cycles, possibly disconnected, with redeclarations over 6 days, inverse declarations, 1/3-like reciprocals and (sub-check zero-price) a zero price; every valuation commodity; each graph is normalised at the library API of the instrumented price package under 6 map-order permutations and once through balance -v; distinct by the hash of the declarations and the valuation commodity",
             "assumptions": ["two different prices for one pair on one day are excluded (ambiguous by construction)", "the per-step truncation is applied from the valuation commodity outwards, as the statement says"]},
-    "C03": {"level": "exploration", "engines": "S", "quick": {"cases": 1500, "secs": 45, "shrink_secs": 10}, "thorough": DEFAULT_T, "rule": GEN_RULE + "; price histories are tree-shaped (a unique derivation per commodity and day), sparse or daily, direct, inverse and chained; a fifth of the journals leave a commodity without a price before its first use",
+    "C03": {"level": "exploration", "engines": "S", "quick": {"cases": 6000, "secs": 45, "shrink_secs": 10}, "thorough": DEFAULT_T, "rule": GEN_RULE + "; price histories are tree-shaped (a unique derivation per commodity and day), sparse or daily, direct, inverse and chained; a fifth of the journals leave a commodity without a price before its first use",
             "assumptions": ["tolerance per cell: 1e-8 per truncating step that contributes (postings plus revaluation days)", "windows start at the first booking and --close=false (with a later --from the report shows changes only, which the statement's 'positions' does not describe)", "-m rules match asset/liability accounts only"]},
-    "C20": {"level": "exploration", "engines": "S", "quick": {"cases": 1500, "secs": 45, "shrink_secs": 10}, "thorough": DEFAULT_T, "rule": GEN_RULE + "; sub-checks: weights (and weights with a universe file and -m mappings) against balance -v -s . on the same partition; returns prints one line per period of that partition; closed-form journals: constant prices with external flows only (0.0%), initial purchases followed by price changes only (end/start - 1)",
+    "C20": {"level": "exploration", "engines": "S", "quick": {"cases": 6000, "secs": 45, "shrink_secs": 10}, "thorough": DEFAULT_T, "rule": GEN_RULE + "; sub-checks: weights (and weights with a universe file and -m mappings) against balance -v -s . on the same partition; returns prints one line per period of that partition; closed-form journals: constant prices with external flows only (0.0%), initial purchases followed by price changes only (end/start - 1)",
             "assumptions": ["weights are compared to 1e-6, returns to the printed precision (0.06 percentage points)", "weights are compared with the balance on windows that start at the first booking: with a later --from balance -v shows changes inside the window, not holdings"]},
-    "C16": {"level": "exploration", "engines": "S", "quick": {"cases": 1500, "secs": 45, "shrink_secs": 10}, "thorough": DEFAULT_T, "rule": GEN_RULE + "; tree-shaped price histories, every (ASCII-named) valuation commodity",
+    "C16": {"level": "exploration", "engines": "S", "quick": {"cases": 6000, "secs": 45, "shrink_secs": 10}, "thorough": DEFAULT_T, "rule": GEN_RULE + "; tree-shaped price histories, every (ASCII-named) valuation commodity",
             "assumptions": ["commodity names are ASCII letters (transcode rewrites other characters for beancount)"]},
-    "C15": {"level": "exploration", "engines": "S", "quick": {"cases": 1500, "secs": 45, "shrink_secs": 10}, "thorough": DEFAULT_T,
+    "C15": {"level": "exploration", "engines": "S", "quick": {"cases": 6000, "secs": 45, "shrink_secs": 10}, "thorough": DEFAULT_T,
             "rule": "training journals (empty, comments only, without transactions, one account pair, ties by construction, rich; optionally spread over an include tree) x target journals (placeholder on the credit side, the debit side, both, several per transaction, none; irregular spacing, comments) x placeholder names; each case runs infer under 6 schedules/map orders, once with --inplace, and formats the target with knut's own formatter as the comparison base",
             "assumptions": ["a candidate is an account of a training booking that does not itself involve the placeholder"]},
     "C02": {"level": "exploration", "engines": "S", "quick": DEFAULT_Q, "thorough": DEFAULT_T, "rule": GEN_RULE, "assumptions": []},
     "C06": {
         "level": "exploration",
         "engines": "S",
-        "quick": {"cases": 480, "secs": 50, "shrink_secs": 10},
+        "quick": {"cases": 1950, "secs": 50, "shrink_secs": 10},
         "thorough": {"cases": 0, "secs": 900, "shrink_secs": 30},
         "rule": GEN_RULE,
         "assumptions": ["every permutation of a map iteration is a legal execution (Go spec), although today's runtime produces only a subset",
